@@ -1,1 +1,160 @@
-fn main(){}
+//! primgen: produces the environment-primitive table used by Prim.tla.
+//!
+//! It does not link evalexpr.  Every entry is an independent fact about the hardware / libm /
+//! Rust's float formatting and Unicode tables, e.g. `fadd(a, b) = c`.  The specification decides
+//! which primitive is applied to which operands; this table supplies the primitive's value.
+//!
+//! Input (JSON file, argument 1): {"floats": [[w3,w2,w1,w0]..], "ints": [[sign,l1..l5]..],
+//!                                 "strings": [[code points]..], "words": [[code points]..]}
+//! Output (JSON file, argument 2): {"<op>": {"<key>": result, ...}, ...} where key is TLC's ToString of
+//! <<a, b>> (binary) or <<a>> (unary), e.g. `<<<<16368, 0, 0, 0>>, <<0, 0, 0, 0>>>>`.
+use serde_json::{json, Map, Value as J};
+
+fn words(f: f64) -> Vec<u64> {
+    let b = f.to_bits();
+    vec![(b >> 48) & 0xffff, (b >> 32) & 0xffff, (b >> 16) & 0xffff, b & 0xffff]
+}
+fn from_words(j: &J) -> f64 {
+    let mut b = 0u64;
+    for w in j.as_array().expect("float words") {
+        b = (b << 16) | w.as_u64().expect("word");
+    }
+    f64::from_bits(b)
+}
+fn limbs_int(j: &J) -> i64 {
+    let a = j.as_array().expect("limbs");
+    let mut m: u128 = 0;
+    for k in (1..6).rev() {
+        m = (m << 15) | a[k].as_u64().unwrap() as u128;
+    }
+    if a[0].as_u64().unwrap() == 0 {
+        m as i64
+    } else {
+        (m as i128).wrapping_neg() as i64
+    }
+}
+fn tla_seq(xs: &[u64]) -> String {
+    format!("<<{}>>", xs.iter().map(|x| x.to_string()).collect::<Vec<_>>().join(", "))
+}
+fn tla_j(j: &J) -> String {
+    tla_seq(&j.as_array().unwrap().iter().map(|x| x.as_u64().unwrap()).collect::<Vec<_>>())
+}
+fn key1(a: &str) -> String {
+    format!("<<{a}>>")
+}
+fn key2(a: &str, b: &str) -> String {
+    format!("<<{a}, {b}>>")
+}
+fn text(j: &J) -> String {
+    j.as_array().unwrap().iter().map(|c| char::from_u32(c.as_u64().unwrap() as u32).unwrap()).collect()
+}
+fn cps(s: &str) -> J {
+    J::Array(s.chars().map(|c| json!(c as u32)).collect())
+}
+
+fn main() {
+    let args: Vec<String> = std::env::args().collect();
+    let input: J = serde_json::from_str(&std::fs::read_to_string(&args[1]).expect("read request")).expect("json");
+    let empty = vec![];
+    let floats: Vec<f64> = input["floats"].as_array().unwrap_or(&empty).iter().map(from_words).collect();
+    let ints: Vec<&J> = input["ints"].as_array().unwrap_or(&empty).iter().collect();
+    let mut all: Vec<f64> = floats.clone();
+    for i in &ints {
+        all.push(limbs_int(i) as f64);
+    }
+    // de-duplicate by bits
+    all.sort_by_key(|f| f.to_bits());
+    all.dedup_by_key(|f| f.to_bits());
+
+    let mut out = Map::new();
+    let bin: Vec<(&str, fn(f64, f64) -> f64)> = vec![
+        ("fadd", |a, b| a + b),
+        ("fsub", |a, b| a - b),
+        ("fmul", |a, b| a * b),
+        ("fdiv", |a, b| a / b),
+        ("frem", |a, b| a % b),
+        ("fpow", |a, b| a.powf(b)),
+        ("flog", |a, b| a.log(b)),
+        ("fatan2", |a, b| a.atan2(b)),
+        ("fhypot", |a, b| a.hypot(b)),
+    ];
+    for (name, f) in bin {
+        let mut m = Map::new();
+        for a in &all {
+            for b in &all {
+                m.insert(key2(&tla_seq(&words(*a)), &tla_seq(&words(*b))), json!(words(f(*a, *b))));
+            }
+        }
+        out.insert(name.into(), J::Object(m));
+    }
+    let un: Vec<(&str, fn(f64) -> f64)> = vec![
+        ("ln", f64::ln),
+        ("log2", f64::log2),
+        ("log10", f64::log10),
+        ("exp", f64::exp),
+        ("exp2", f64::exp2),
+        ("cos", f64::cos),
+        ("acos", f64::acos),
+        ("cosh", f64::cosh),
+        ("acosh", f64::acosh),
+        ("sin", f64::sin),
+        ("asin", f64::asin),
+        ("sinh", f64::sinh),
+        ("asinh", f64::asinh),
+        ("tan", f64::tan),
+        ("atan", f64::atan),
+        ("tanh", f64::tanh),
+        ("atanh", f64::atanh),
+        ("sqrt", f64::sqrt),
+        ("cbrt", f64::cbrt),
+        ("floor", f64::floor),
+        ("round", f64::round),
+        ("ceil", f64::ceil),
+    ];
+    for (name, f) in un {
+        let mut m = Map::new();
+        for a in &all {
+            m.insert(key1(&tla_seq(&words(*a))), json!(words(f(*a))));
+        }
+        out.insert(name.into(), J::Object(m));
+    }
+    // Display of floats (Rust's shortest round-trip formatting), as code points
+    let mut m = Map::new();
+    for a in &all {
+        m.insert(key1(&tla_seq(&words(*a))), cps(&a.to_string()));
+    }
+    out.insert("fdisplay".into(), J::Object(m));
+    // Debug of floats (used inside error messages only)
+    let mut m = Map::new();
+    for a in &all {
+        m.insert(key1(&tla_seq(&words(*a))), cps(&format!("{:?}", a)));
+    }
+    out.insert("fdebug".into(), J::Object(m));
+    // i64 -> f64 (cross-check of Float64.IntToFloat)
+    let mut m = Map::new();
+    for i in &ints {
+        m.insert(key1(&tla_j(i)), json!(words(limbs_int(i) as f64)));
+    }
+    out.insert("i2f".into(), J::Object(m));
+    // case mapping and parsing of words
+    let mut lo = Map::new();
+    let mut up = Map::new();
+    for s in input["strings"].as_array().unwrap_or(&empty) {
+        let t = text(s);
+        lo.insert(key1(&tla_j(s)), cps(&t.to_lowercase()));
+        up.insert(key1(&tla_j(s)), cps(&t.to_uppercase()));
+    }
+    out.insert("lower".into(), J::Object(lo));
+    out.insert("upper".into(), J::Object(up));
+    let mut fp = Map::new();
+    for s in input["words"].as_array().unwrap_or(&empty) {
+        let t = text(s);
+        let r = match t.parse::<f64>() {
+            Ok(f) => json!(words(f)),
+            Err(_) => json!([]),
+        };
+        fp.insert(key1(&tla_j(s)), r);
+    }
+    out.insert("fparse".into(), J::Object(fp));
+    std::fs::write(&args[2], serde_json::to_string(&J::Object(out)).unwrap()).expect("write table");
+}
